@@ -67,6 +67,28 @@ def run(c):
         cv = np.asarray(jnp.fft.irfft2(jnp.fft.rfft2(a) * jnp.fft.rfft2(b), s=(N, N)))
         out["pixels"] = [[r_, c_, fhex(float(cv[r_, c_]))] for (r_, c_) in c["pixels"]]
         return out
+    if c["mode"] == "point_ns":
+        # non-square odd stamps at integer positions: the embedded-stamp claim is exact for all three renderers
+        N, (P0, P1) = c["N"], c["shape"]
+        rng = np.random.default_rng(c["seed"])
+        psf = rng.integers(1, 9, size=(P0, P1)).astype(np.float64)
+        psf[rng.integers(P0), rng.integers(P1)] += 40.0
+        psf = psf / psf.sum()
+        flux, xc, yc = c["flux"], c["xc"], c["yc"]
+        want = embed(N, psf, yc, xc, flux)
+        for kind in ("pixel", "fourier", "hybrid"):
+            kw = dict(os_pixel_size=2, num_os=3) if kind == "pixel" else {}
+            try:
+                r = REND[kind]((N, N), jnp.array(psf.astype(np.float32)), **kw)
+                im = np.asarray(r.render_source(dict(xc=xc, yc=yc, flux=flux), "pointsource"), np.float64)
+            except Exception as ex:   # noqa
+                out["oracle"].append("%s: a %dx%d PSF on a %dx%d image raises %s: %s" % (kind, P0, P1, N, N, type(ex).__name__, str(ex)[:100]))
+                continue
+            d = np.abs(im - want).max() / (flux * psf.max())
+            out.setdefault("dev", {})[kind + "_ns"] = float(d)
+            if d > 2e-5:
+                out["oracle"].append("%s: point source at integer (%g, %g) with a %dx%d stamp differs from the embedded stamp by %.3g of the peak" % (kind, xc, yc, P0, P1, d))
+        return out
     if c["mode"] == "point":
         N, P = c["N"], c["P"]
         integer_pos = float(c["xc"]).is_integer() and float(c["yc"]).is_integer()
